@@ -28,11 +28,11 @@ def fns(file, fl, self_ty="", trait="", extra="", header=""):
 
 
 def fn(name, ret="", requires=(), ensures=(), mode="verify", closures=None, loops=None, subst=None,
-       attrs="", proof_prologue="", proof_epilogue="", iter_loops=None, label=""):
+       attrs="", proof_prologue="", proof_epilogue="", iter_loops=None, label="", opaque_quotes=()):
     return {"name": name, "ret": ret, "requires": list(requires), "ensures": list(ensures),
             "mode": mode, "closures": closures or {}, "loops": loops or {}, "subst": subst or [],
             "attrs": attrs, "proof_prologue": proof_prologue, "proof_epilogue": proof_epilogue,
-            "iter_loops": iter_loops or {}, "label": label}
+            "iter_loops": iter_loops or {}, "label": label, "opaque_quotes": list(opaque_quotes)}
 
 
 def table(what, file, name):
@@ -70,7 +70,7 @@ PARSE_STREAM_ENSURES = [
 M_OF_COMB = "meaning_of_ctor(parse_table({c}).1)"
 
 
-MODULES = ["core", "optable", "entries", "gen", "guards", "names", "det", "builder", "parse", "sep", "steps"]
+MODULES = ["core", "optable", "entries", "gen", "guards", "names", "det", "builder", "parse", "sep", "steps", "top"]
 
 
 def common_units():
@@ -682,6 +682,52 @@ def steps_units():
     return u
 
 
+TO_TOKENS = fn("to_tokens", "", label="JoinOutput::to_tokens", opaque_quotes=[1, 3, 4],
+    requires=["jo_wf(*self)"],
+    # C07 / C09 / C13 / C19: the whole expansion, as a function of the steps and of the handler call
+    ensures=["exists|pats: Seq<TokenStream>, vars: Seq<Ident>| #[trigger] result_names_ok(*self, pats, vars) "
+             "&& final(output)@ == old(output)@ + top_toks(*self, steps_toks(*self, pats, vars, %s, %s, 0))" % (GS_FI, GS_EV)],
+    closures={
+        "|branch_index|": {"params": ["usize"], "ret": "(r: (TokenStream, Ident))", "requires": ["branch_index < self.branch_pats@.len()"],
+                           "ensures": ["r.0@ =~= (match self.branch_pats@[branch_index as int] { Some(p) => p.toks(), None => seq![Tok::Ident(construct_result_name_spec(branch_index))] })",
+                                       "r.1.name() =~= (match self.branch_pats@[branch_index as int] { Some(p) => p.ident.name(), None => construct_result_name_spec(branch_index) })"]},
+        "|handler_expr|": {"params": ["&Expr"], "ret": "(r: TokenStream)",
+                           "ensures": ["r@ == bp(bt(bp(bt(bi(no_toks(), \"let\"@), handler_name.toks()), '='), handler_expr.toks()), ';')"]},
+    },
+    iter_loops={"0": {"acc_ty": "TokenStream; Ident", "invariant": [
+        "__lo == 0", "__hi == self.branch_count", "__i <= __hi", "__a@.len() == __i", "__b@.len() == __i",
+        "forall|k: usize| k < self.branch_count ==> __f.requires((k,))",
+        "forall|k: usize, r: (TokenStream, Ident)| __f.ensures((k,), r) ==> (r.0@ =~= (match self.branch_pats@[k as int] { Some(p) => p.toks(), None => seq![Tok::Ident(construct_result_name_spec(k))] }) "
+        "&& r.1.name() =~= (match self.branch_pats@[k as int] { Some(p) => p.ident.name(), None => construct_result_name_spec(k) }))",
+        "forall|k: int| 0 <= k < __i ==> (#[trigger] __a@[k])@ =~= (match self.branch_pats@[k] { Some(p) => p.toks(), None => seq![Tok::Ident(construct_result_name_spec(k as usize))] })",
+        "forall|k: int| 0 <= k < __i ==> (#[trigger] __b@[k]).name() =~= (match self.branch_pats@[k] { Some(p) => p.ident.name(), None => construct_result_name_spec(k as usize) })",
+    ]}},
+    proof_epilogue="proof { assert(result_names_ok(*self, result_pats@, result_vars@)); }")
+
+
+def top_units():
+    """join_output.rs::<JoinOutput as ToTokens>::to_tokens (C07 / C09 / C13 / C19): how the generated code is assembled
+    around the steps.  Callees appear with the contracts they are verified against in modules `gen` and `steps`."""
+    g = gen_units()
+    u = []
+    keep_fns = {"generate_handle", "branch_result_name", "branch_result_pat"}
+    for un in g:
+        if un.get("kind") == "type" and un.get("name") in ("ActionExprPos", "StepAcc", "JoinOutput"):
+            u.append(un)
+        elif un.get("kind") == "raw" and un.get("label") in ("specs_gen",):
+            u.append(un)
+        elif un.get("kind") == "fns" and un.get("self_ty") == "JoinOutput" and any(f["name"] in keep_fns for f in un["fns"]):
+            un2 = dict(un)
+            un2["fns"] = [f for f in un["fns"] if f["name"] in keep_fns]
+            u += _assume([un2])
+    u.append(table("quote_idents", F_JO, "qj+@Err"))
+    u.append(raw("specs_join_steps", _read("specs_join_steps.rs")))
+    u += _assume([fns(F_JO, [GENERATE_STEPS], self_ty="JoinOutput")])
+    u.append(raw("specs_top", _read("specs_top.rs")))
+    u.append(fns(F_JO, [TO_TOKENS], self_ty="JoinOutput", trait="ToTokens", header="impl<'a> JoinOutput<'a>"))
+    return u
+
+
 def guards_units():
     """R8 expression extraction from JoinOutput::new (C13 kind/handler compatibility, C16 defaults)"""
     u = []
@@ -893,6 +939,9 @@ def build_plan(repo, module):
     elif module == "steps":
         u += _assume(core_units())
         u += steps_units()
+    elif module == "top":
+        u += _assume(core_units())
+        u += top_units()
     elif module == "guards":
         u += guards_units()
     else:
@@ -900,7 +949,7 @@ def build_plan(repo, module):
     u.append(raw("footer", "} // verus!\nfn main() {}\n"))
     if module == "builder":
         optargs = {"new": [0], "set_id": [0]}
-    if module in ("gen", "steps"):
+    if module in ("gen", "steps", "top"):
         optargs = {"generate_results_transposer": [1], "extract_results_tuple": [2, 3], "generate_def_and_step_streams": [0, 2], "wrap_last_step_stream": [1],
                    "process_step_action_expr": [0]}
     return {"repo": repo, "units": u, "optargs": optargs}
@@ -928,9 +977,12 @@ OBLIGATIONS = {
     "C04": [("steps", "JoinOutput::join_steps"), ("steps", "lemma_join_comma"), ("steps", "lemma_count_take_step"), ("gen", "JoinOutput::generate_results_transposer"), ("gen", "JoinOutput::active_step_branch_count"), ("gen", "JoinOutput::extract_results_tuple"), ("gen", "lemma_refs_toks"), ("gen", "lemma_filter_tokenizable"),
             ("gen", "JoinOutput::is_branch_active_in_step"), ("gen", "JoinOutput::generate_indexed_step_results_name"),
             ("gen", "JoinOutput::branch_result_name"), ("gen", "JoinOutput::branch_result_pat")],
-    "C07": [("steps", "JoinOutput::generate_thread_builders_and_spawn_joiners"), ("steps", "JoinOutput::generate_step_tail"), ("steps", "lemma_concat_all"), ("entries", "lemma_entry_table")],
-    "C13": [("guards", "Handler::is_map"), ("guards", "Handler::is_then"), ("guards", "Handler::is_and_then"), ("guards", "new_guards"), ("gen", "JoinOutput::generate_handle"), ("gen", "JoinOutput::extract_results_tuple"), ("gen", "JoinOutput::generate_results_transposer")],
-    "C09": [("steps", "JoinOutput::generate_step_tail")],
+    "C07": [("steps", "JoinOutput::generate_thread_builders_and_spawn_joiners"), ("steps", "JoinOutput::generate_step_tail"), ("steps", "lemma_concat_all"), ("entries", "lemma_entry_table"), ("top", "JoinOutput::to_tokens")],
+    "C13": [("top", "JoinOutput::to_tokens"), ("guards", "Handler::is_map"), ("guards", "Handler::is_then"), ("guards", "Handler::is_and_then"), ("guards", "new_guards"), ("gen", "JoinOutput::generate_handle"), ("gen", "JoinOutput::extract_results_tuple"), ("gen", "JoinOutput::generate_results_transposer")],
+    "C09": [("steps", "JoinOutput::generate_step_tail"), ("top", "JoinOutput::to_tokens")],
+    # the steps of every kind sit in a plain block of the scope the macro is called in (no closure / thread / box of
+    # the macro's own between the caller's locals and the branch expressions)
+    "C19": [("top", "JoinOutput::to_tokens")],
     "C08": [("sep", "is_block_expr"), ("steps", "JoinOutput::generate_thread_builders_and_spawn_joiners"), ("steps", "JoinOutput::generate_step_tail"), ("steps", "lemma_concat_all"),
             ("core", "construct_thread_builder_name"), ("core", "construct_thread_builder_fn_name")],
     "C18": [("gen", "JoinOutput::split_branch_steps"), ("steps", "JoinOutput::generate_steps"), ("steps", "JoinOutput::generate_thread_builders_and_spawn_joiners"), ("steps", "JoinOutput::generate_step_tail")],
